@@ -11,6 +11,7 @@ import (
 	"net/http/httptest"
 	"net/url"
 	"reflect"
+	"strconv"
 	"strings"
 	"sync"
 	"time"
@@ -30,7 +31,9 @@ import (
 //   loki-series                     : QueryLabelsService.Series (the stored label documents are passed through)
 //   tempo-tags / tempo-tag-values   : TempoController.Tags / Values over the real TempoService
 //   tempo-search                    : TempoController.Search (tags search branch)
-//   tempo-trace                     : TempoController.Trace (json branch), OTLP protobuf payloads
+//   tempo-trace                     : TempoController.Trace (json branch), OTLP protobuf payloads whose spans carry
+//                                     attributes of every scalar AnyValue kind (traceattr.go) and full-range times
+//   tempo-search-traceql            : TempoController.Search (TraceQL branch): a channel of BATCHES, see traceql.go
 
 type listEnv struct {
 	scanFault bool
@@ -38,6 +41,7 @@ type listEnv struct {
 	e         *env
 	labels    *service.QueryLabelsService
 	router    *mux.Router
+	tq        *batchedTempo
 }
 
 func newListEnv() *listEnv {
@@ -45,7 +49,9 @@ func newListEnv() *listEnv {
 	le := &listEnv{e: e}
 	sd := model.ServiceData{Session: e.db.Registry("")}
 	le.labels = service.NewQueryLabelsService(&sd)
-	tc := &controllerv1.TempoController{Service: service.NewTempoService(sd)}
+	// the real TempoService; only SearchTraceQL (the producer of the batches of the TraceQL branch of Search) is scripted
+	le.tq = &batchedTempo{ITempoService: service.NewTempoService(sd)}
+	tc := &controllerv1.TempoController{Service: le.tq}
 	le.router = mux.NewRouter()
 	le.router.HandleFunc("/api/search/tags", tc.Tags)
 	le.router.HandleFunc("/api/search/tag/{tag}/values", tc.Values)
@@ -249,12 +255,23 @@ func (le *listEnv) runList(endpoint string, r *rand.Rand, n int, errAt int, spec
 		traceID := []byte("0123456789abcdef")
 		rows := make([][]driver.Value, n)
 		names := make([]string, n)
+		attrs := make([][]traceAttr, n)
+		times := make([][2]uint64, n)
 		for i := range rows {
 			names[i] = pickValid(r, class)
+			// attributes of every scalar AnyValue kind (string, bool, int, double, bytes) with awkward values
+			attrs[i] = traceAttrs(r, class)
+			kvs := []*common.KeyValue{{Key: "service.name", Value: &common.AnyValue{Value: &common.AnyValue_StringValue{StringValue: "svc"}}}}
+			for _, a := range attrs[i] {
+				kvs = append(kvs, &common.KeyValue{Key: a.key, Value: a.value()})
+			}
+			times[i] = [2]uint64{uint64(1700000000000000000 + r.Int63n(1e15)), 0}
+			times[i][1] = times[i][0] + uint64(r.Int63n(1e12))
+			if r.Intn(8) == 0 {
+				times[i][1] = 1<<64 - 1 - uint64(r.Intn(3)) // beyond 2^53 and 2^63: only exact as an integer text
+			}
 			sp := &v1.Span{TraceId: traceID, SpanId: []byte(fmt.Sprintf("%08d", i)), Name: names[i],
-				StartTimeUnixNano: uint64(1700000000000000000 + i), EndTimeUnixNano: uint64(1700000000000001000 + i),
-				Attributes: []*common.KeyValue{{Key: "service.name", Value: &common.AnyValue{Value: &common.AnyValue_StringValue{StringValue: "svc"}}},
-					{Key: "k", Value: &common.AnyValue{Value: &common.AnyValue_StringValue{StringValue: pickValid(r, class)}}}}}
+				StartTimeUnixNano: times[i][0], EndTimeUnixNano: times[i][1], Attributes: kvs}
 			pb, err := proto.Marshal(sp)
 			if err != nil {
 				driverError("proto.Marshal: " + err.Error())
@@ -298,10 +315,46 @@ func (le *listEnv) runList(endpoint string, r *rand.Rand, n int, errAt int, spec
 			if len(spans) != want {
 				return "rows", fmt.Sprintf("%d spans for %d rows", len(spans), want)
 			}
+			okAttr := map[string]int{}
+			defer func() {
+				for k_, v_ := range okAttr {
+					stat("trace_attr_"+k_+"_ok", v_)
+				}
+			}()
 			for i, x := range spans {
 				s, _ := asObj(x)
 				if s == nil || s["name"] != names[i] {
 					return "string|" + classify(names[i]), fmt.Sprintf("span %d name %q came back as %v", i, names[i], s["name"])
+				}
+				if fmt.Sprint(s["startTimeUnixNano"]) != strconv.FormatUint(times[i][0], 10) || fmt.Sprint(s["endTimeUnixNano"]) != strconv.FormatUint(times[i][1], 10) {
+					return "timestamp", fmt.Sprintf("span %d: start/end %v/%v, stored %d/%d", i, s["startTimeUnixNano"], s["endTimeUnixNano"], times[i][0], times[i][1])
+				}
+				got, ok := s["attributes"].([]any)
+				if !ok || len(got) != len(attrs[i])+1 {
+					return "shape", fmt.Sprintf("span %d: attributes %v for %d stored attributes", i, s["attributes"], len(attrs[i])+1)
+				}
+				// the attributes travel through a map keyed by name (parseOTLP): their order is free, the keys are distinct
+				byKey := map[string]any{}
+				for _, g := range got {
+					ao, _ := asObj(g)
+					if k_, isStr := ao["key"].(string); isStr {
+						byKey[k_] = g
+					}
+				}
+				if len(byKey) != len(got) {
+					return "shape", fmt.Sprintf("span %d: attributes without a key or with the same key: %v", i, got)
+				}
+				for k, a := range attrs[i] {
+					ao, _ := asObj(byKey[a.key])
+					vo, _ := asObj(ao["value"])
+					txt, isStr := vo["stringValue"].(string)
+					if ao == nil || vo == nil || !isStr {
+						return "shape", fmt.Sprintf("span %d attribute %d (%q) came back as %v in %v", i, k, a.key, byKey[a.key], got)
+					}
+					if !a.rendered(txt) {
+						return "attr-" + a.kind, fmt.Sprintf("span %d: %s attribute %s stored as %s, response carries %q", i, a.kind, a.key, a.describe(), clip(txt, 200))
+					}
+					okAttr[a.kind]++
 				}
 			}
 			return "", ""
@@ -366,6 +419,7 @@ var listEndpoints = map[string][]string{
 var stringItems = map[string]bool{"loki-labels": true, "loki-label-values": true, "tempo-tags": true, "tempo-tag-values": true}
 
 type listJob struct {
+	sizes    []int // tempo-search-traceql: traces per channel batch
 	endpoint string
 	n, errAt int
 	scan     bool
@@ -377,6 +431,16 @@ func runLists(cases []*SpecCase, seed int64, full int, par int) {
 	var jobs []listJob
 	seen := map[string]bool{}
 	for _, c := range cases {
+		if c.W == "traceql" {
+			// the batch structure IS the case: every batching TLC enumerated, delivered as it is
+			sizes := make([]int, len(c.In))
+			for b := range c.In {
+				sizes[b] = len(c.In[b])
+			}
+			stat("traceql_spec_cases", 1)
+			jobs = append(jobs, listJob{endpoint: "tempo-search-traceql", sizes: sizes, toks: specTokens(c.Toks), seed: seed*7919 + int64(c.N)})
+			continue
+		}
 		eps, ok := listEndpoints[c.W]
 		if !ok {
 			continue
@@ -422,6 +486,14 @@ func runLists(cases []*SpecCase, seed int64, full int, par int) {
 			}
 		}
 	}
+	// seeded batchings with more batches and bigger batches, empty ones at every position
+	for i := 0; i < full; i++ {
+		sizes := make([]int, 1+r.Intn(7))
+		for b := range sizes {
+			sizes[b] = []int{0, 0, 0, 1, 1, 2, 3, 20}[r.Intn(8)]
+		}
+		jobs = append(jobs, listJob{endpoint: "tempo-search-traceql", sizes: sizes, seed: r.Int63()})
+	}
 	ch := make(chan listJob, 64)
 	var wg sync.WaitGroup
 	for i := 0; i < par; i++ {
@@ -430,6 +502,10 @@ func runLists(cases []*SpecCase, seed int64, full int, par int) {
 			defer wg.Done()
 			le := newListEnv()
 			for j := range ch {
+				if j.endpoint == "tempo-search-traceql" {
+					le.runTraceQL(rand.New(rand.NewSource(j.seed)), j.sizes, j.toks)
+					continue
+				}
 				le.runList(j.endpoint, rand.New(rand.NewSource(j.seed)), j.n, j.errAt, j.toks, j.scan)
 			}
 		}()
